@@ -631,9 +631,45 @@ func genStale(idx int, seed int64, thorough bool) *Scenario {
 	g.appendOp(0, 5+r.Intn(10)) // B
 	g.add(Op{Kind: "sleep", Ms: 10 + r.Intn(30)})
 	g.appendOp(0, 800+r.Intn(400)) // C: a long reading round
-	s.Kill = KillPlan{Mode: "anomaly", DelayMs: 5000, Nth: 40 + r.Intn(80), Sleeps: "file.watcher.afterStat=sleep:400000:1.0"}
+	s.Kill = KillPlan{Mode: "anomaly", DelayMs: 2500, Nth: 40 + r.Intn(80), Sleeps: "file.watcher.afterStat=sleep:400000:1.0"}
 	g.add(Op{Kind: "KILL"})
 	g.appendOp(0, 1+r.Intn(5))
+	g.add(Op{Kind: "START2"})
+	g.finish()
+	g.add(Op{Kind: "END"})
+	return s
+}
+
+// genRotRace builds the directed scenario "file rotated between the watcher's
+// Lstat and the open of the new job": the start-up walk has taken the stat
+// of f0.log and is held (sleep armed at file.watcher.afterStat; a loaded
+// machine does the same, see NOTES.md) while f0.log is renamed away and a
+// new f0.log is created; the process is killed as soon as the offsets file on
+// disk holds, under the inode of the renamed file, an offset that is no line
+// end of that file.
+func genRotRace(idx int, seed int64, thorough bool) *Scenario {
+	g := newGen(idx, seed, "rotrace")
+	s := g.s
+	r := g.r
+	s.Cfg = genConfig(r, thorough)
+	if s.Cfg.AsyncMs > 100 {
+		s.Cfg.AsyncMs = 50
+	}
+	g.initFiles(1, func() int { return 1 + r.Intn(2) })
+	g.feature("rotation-between-stat-and-open")
+	g.feature("rotate-running")
+	g.appendOp(0, 30+r.Intn(40))
+	g.add(Op{Kind: "START1"})
+	g.add(Op{Kind: "WAITCREATE"})
+	g.add(Op{Kind: "rotate", File: 0})
+	g.appendOp(0, 3+r.Intn(4))
+	// SIGKILL as soon as the offsets file holds, under the inode of the renamed file, an offset that is
+	// no line end of that file (or after a bounded wait)
+	s.Kill = KillPlan{Mode: "anomaly", DelayMs: 2500, Sleeps: "file.watcher.afterStat=sleep:300000:1.0"}
+	g.add(Op{Kind: "KILL"})
+	if r.Intn(2) == 0 {
+		g.appendOp(0, 1+r.Intn(5))
+	}
 	g.add(Op{Kind: "START2"})
 	g.finish()
 	g.add(Op{Kind: "END"})
